@@ -541,6 +541,56 @@ func generate(c *drv.Ctx) {
 	c.Extra["exhaustive_scalar_declarations"] = nScalar
 	c.Extra["exhaustive_array_declarations"] = nArray
 	c.Extra["validation_declarations"] = nVal
+	// (5b) concurrent requests: batches of N in {8, 64} requests served simultaneously from N goroutines against the ONE
+	// handler of a declaration, at GOMAXPROCS 1 / 4 / 16; every request sends texts of its own (its index is part of each
+	// text), so a parameter bound from another request's text is a wrong value for that request.
+	nConcReq := 512
+	if thorough {
+		nConcReq = 2048
+	}
+	concDecls := []Decl{
+		{In: "query", Name: "lim", Type: "integer", Format: "int64", Val: noVal()},
+		{In: "query", Name: "lim", Type: "string", Required: true, Val: noVal()},
+		{In: "query", Name: "lim", Type: "array", IType: "integer", IFmt: "int32", CF: "multi", Val: noVal()},
+		{In: "query", Name: "lim", Type: "array", IType: "string", CF: "csv", Val: noVal()},
+		{In: "header", Name: "X-Lim", Type: "integer", Format: "int32", Val: noVal()},
+		{In: "path", Name: "id", Type: "string", Required: true, Val: noVal()},
+		{In: "formData", Enc: "urlencoded", Name: "lim", Type: "integer", Val: noVal()},
+		{In: "formData", Enc: "multipart", Name: "lim", Type: "string", Val: noVal()},
+	}
+	nConc := 0
+	for _, procs := range []int{1, 4, 16} {
+		for _, n := range []int{8, 64} {
+			for j := 0; j < 4; j++ {
+				d := concDecls[(nConc+j/2*3)%len(concDecls)]
+				if j < 2 {
+					d = concDecls[j] // the scalar query parameters in every configuration
+				}
+				if d.In == "query" || d.In == "formData" {
+					d.Aux = 7 // an operation with eight parameters, seven of them further query parameters
+				}
+				var reqs []Req
+				for i := 0; i < nConcReq; i++ {
+					rq := uniqueReq(d, i, c.Rng)
+					for k := 1; k <= d.Aux; k++ {
+						p := Pair{K: "aux" + strconv.Itoa(k), V: strconv.Itoa(1000 + i)}
+						if d.In == "query" {
+							rq.Pairs = append(rq.Pairs, p)
+						} else {
+							rq.Other = append(rq.Other, p) // the query string of the form post
+						}
+					}
+					reqs = append(reqs, rq)
+				}
+				m := bindCase(d, reqs)
+				m["conc"], m["procs"], m["yield"] = n, procs, nConc%3 == 0
+				c.Case(m)
+				nConc++
+			}
+		}
+	}
+	c.Extra["concurrent_cases"] = nConc
+	c.Extra["concurrent_requests"] = nConc * nConcReq
 	// (6) seeded random declarations and literals
 	n := 1500
 	if thorough {
@@ -550,6 +600,31 @@ func generate(c *drv.Ctx) {
 		c.Case(randomCase(c.Rng))
 	}
 	c.Extra["random_declarations"] = n
+}
+
+// uniqueReq: request number i of a concurrent case; every text carries i.
+func uniqueReq(d Decl, i int, r *rand.Rand) Req {
+	num := strconv.Itoa(1000 + i)
+	txt := "v" + strconv.Itoa(i) + "z"
+	one := txt
+	if d.Type == "integer" || d.IType == "integer" {
+		one = num
+	}
+	switch {
+	case d.In == "path":
+		return Req{Seg: one}
+	case d.Type == "array" && d.CF == "multi":
+		return Req{Pairs: []Pair{{K: d.Name, V: one}, {K: d.Name, V: strconv.Itoa(i % 7)}, {K: d.Name + "x", V: "9"}}}
+	case d.Type == "array":
+		return Req{Pairs: []Pair{{K: d.Name, V: one + sepOf(d.CF) + "a" + strconv.Itoa(i%5)}}}
+	case i%11 == 0 && !d.Required:
+		return Req{Pairs: []Pair{{K: d.Name + "x", V: one}}} // absent: the zero value, never a neighbour's text
+	case i%13 == 0 && d.Type == "integer":
+		return Req{Pairs: []Pair{{K: d.Name, V: one + "x"}}} // invalid: 422, never a neighbour's value
+	case r.Intn(4) == 0:
+		return Req{Pairs: []Pair{{K: d.Name, V: "0"}, {K: d.Name, V: one}}}
+	}
+	return Req{Pairs: []Pair{{K: d.Name, V: one}}}
 }
 
 // ---- random -----------------------------------------------------------------------------------------
